@@ -166,16 +166,63 @@ def str_pred(I, name, s):
     """isspace/isdigit/isalpha/...: uninterpreted predicates (DESIGN 4.4); for a character taken from a string by
     index the predicate is a function of (string, position)"""
     if isinstance(s, SChar):
-        f = _PRED_AT.get(name)
-        if f is None:
-            f = z3.Function(f'{name}_at', z3.StringSort(), z3.IntSort(), z3.BoolSort())
-            _PRED_AT[name] = f
-        return lib.wrap_bool(f(s.src.t, I.term(s.idx)))
+        return lib.wrap_bool(_pred_at(name)(s.src.t, I.term(s.idx)))
     f = _PRED.get(name)
     if f is None:
         f = z3.Function(f'py_{name}', z3.StringSort(), z3.BoolSort())
         _PRED[name] = f
-    return lib.wrap_bool(f(I.term(s)))
+    t = I.term(s)
+    key = ('pred', name, t.get_id())
+    if key not in I.p.ghost and name in ('isalnum', 'isalpha', 'isdigit', 'isspace', 'isnumeric', 'isdecimal'):
+        I.p.ghost[key] = t
+        # whole-string predicate == non-empty and the per-position predicate holds everywhere (Python's definition)
+        at = _pred_at(name)
+        q = z3.Int(I.p.fresh_name('q_pred'))
+        I.p.assume(f(t) == z3.And(z3.Length(t) > 0, z3.ForAll([q], z3.Implies(z3.And(q >= 0, q < z3.Length(t)), at(t, q)))))
+        if name == 'isalnum':
+            q2 = z3.Int(I.p.fresh_name('q_pred'))
+            I.p.assume(z3.ForAll([q2], z3.Implies(z3.And(q2 >= 0, q2 < z3.Length(t)),
+                                                  z3.And(at(t, q2) == z3.Or(_pred_at('isalpha')(t, q2), _pred_at('isdigit')(t, q2),
+                                                                            _pred_at('isothernumeric')(t, q2)),
+                                                         z3.Implies(at(t, q2), z3.Not(_pred_at('isspace')(t, q2)))))))
+    return lib.wrap_bool(f(t))
+
+
+def _pred_at(name):
+    f = _PRED_AT.get(name)
+    if f is None:
+        f = z3.Function(f'{name}_at', z3.StringSort(), z3.IntSort(), z3.BoolSort())
+        _PRED_AT[name] = f
+    return f
+
+
+def repair_string(model, t):
+    """Rebuild a concrete string whose characters realise the model's per-position character facts (the solver's own
+    string value is unrelated to the uninterpreted per-position predicates)."""
+    n = model.eval(z3.Length(t), model_completion=True).as_long()
+    out = []
+    for p in range(min(n, 64)):
+        def pv(name):
+            f = _PRED_AT.get(name)
+            return f is not None and z3.is_true(model.eval(f(t, z3.IntVal(p)), model_completion=True))
+        code = model.eval(_CODE_AT(t, z3.IntVal(p)), model_completion=True).as_long()
+        from_ranges = [(0x4E00, 0x9FBF), (0x3400, 0x4DBF), (0x3040, 0x309F), (0x30A0, 0x30FF), (0xFF66, 0xFF9D),
+                       (0xAC00, 0xD7AF), (0x1100, 0x11FF), (0x3130, 0x318F), (0xFFB0, 0xFFDC)]
+        cjk = any(lo <= code <= hi for lo, hi in from_ranges)
+        if pv('isspace'):
+            ch = ' '
+        elif cjk:
+            ch = chr(code) if chr(code).isalpha() == pv('isalpha') else '\u4e2d'
+        elif pv('isdigit'):
+            ch = '7'
+        elif pv('isalpha'):
+            ch = 'a'
+        elif pv('isothernumeric'):
+            ch = '\u00bd'
+        else:
+            ch = '$'
+        out.append(ch)
+    return ''.join(out)
 
 
 def char_code(I, s):
